@@ -7,7 +7,7 @@
    observations are the slices [b*n, (b+1)*n) ([pring]); sample b of an operation takes the same slice of the input,
    of the injected currents and of the (per-sample) delay selector ([psop]); sample b of a result likewise ([psout]).
 
-   [sstep_sample]: for EVERY operation of the model (forward step of all four classes, current / spike reads, the
+   [synapse_step_sample]: for EVERY operation of the model (forward step of all four classes, current / spike reads, the
    delayed reads current_at / spike_at / pos_current_at / neg_current_at with a selector of the observation's shape
    or with a trailing axis of D selectors per synapse, delayed and undelayed records, with and without out-of-bounds
    values, both write modes, clear) that does not raise on the batch, the batch-1 instance on sample b's operation
@@ -195,7 +195,7 @@ Proof.
 Qed.
 
 (* ------------------------------------------------------------------ forward *)
-Theorem forward_sample c s xs inj s' out : bsyn s -> length xs = B * n -> Forall (fun i => length i = B * n) inj ->
+Theorem synapse_forward_sample c s xs inj s' out : bsyn s -> length xs = B * n -> Forall (fun i => length i = B * n) inj ->
   forward NM c s (B :: sh) xs inj = SOk (s', out) ->
   forward NM c (psyn s) (1 :: sh) (samp n b xs) (map (samp n b) inj) = SOk (psyn s', psout out) /\ bsyn s'.
 Proof.
@@ -475,14 +475,14 @@ Qed.
 
 (* EVERY OPERATION: if it does not raise on the batch, the batch-1 instance on sample b's operation returns
    sample b of the result and ends in sample b of the state *)
-Theorem sstep_sample c s o s' out : bsyn s -> sop_ok o ->
+Theorem synapse_step_sample c s o s' out : bsyn s -> sop_ok o ->
   sstep NM c s o = SOk (s', out) ->
   sstep NM c (psyn s) (psop o) = SOk (psyn s', psout out) /\ bsyn s'.
 Proof.
   intros Hbs Hok. pose proof Hbs as (Hs & Hc & Hn).
   destruct o as [xsh xs inj| | |ssh sel|ssh sel|ssh sel|ssh sel|]; cbn [sstep psop sop_ok] in *.
   - destruct (list_eq_dec Nat.eq_dec xsh (B :: sh)) as [->|Hne].
-    + destruct Hok as [Hx Hi]. rewrite nel_cons in Hx, Hi. cbn [pshape pvals]. now apply forward_sample.
+    + destruct Hok as [Hx Hi]. rewrite nel_cons in Hx, Hi. cbn [pshape pvals]. now apply synapse_forward_sample.
     + unfold forward. rewrite (rpush_bad_shape NM c _ xsh _ _ Hs Hne). discriminate.
   - intros H. injection H as <- <-. split; [|exact Hbs]. cbn [psout].
     rewrite (current_of_sample c s Hbs).
@@ -515,7 +515,7 @@ Proof.
   - injection Hrun as <- <-. split; [reflexivity|exact Hbs].
   - inversion Hok as [|? ? Ho Hops]; subst.
     destruct (sstep NM c s o) as [[s' out]|e] eqn:E.
-    + destruct (sstep_sample c s o s' out Hbs Ho E) as [E' Hbs']. rewrite E'.
+    + destruct (synapse_step_sample c s o s' out Hbs Ho E) as [E' Hbs']. rewrite E'.
       destruct (run NM c s' ops) as [sf' outs'] eqn:Er. injection Hrun as <- <-.
       inversion Hnr as [|? ? _ Hnr']; subst.
       destruct (IH s' sf' outs' Hbs' Hops Er Hnr') as [IH1 IH2]. rewrite IH1. split; [reflexivity|exact IH2].
@@ -543,7 +543,7 @@ Qed.
 Lemma map_repeat'' {X Y} (f : X -> Y) x k : map f (repeat x k) = repeat (f x) k.
 Proof. induction k as [|k IH]; cbn; [reflexivity|now rewrite IH]. Qed.
 
-Lemma init_sample c B sh b : b < B -> cshape NM c = B :: sh ->
+Lemma synapse_init_sample c B sh b : b < B -> cshape NM c = B :: sh ->
   psyn NM b (init NM c) = init NM (with_shape c (1 :: sh)) /\ bsyn NM B sh (init NM c).
 Proof.
   intros Hb Hc. split.
@@ -560,7 +560,7 @@ Corollary synapse_batch_independent_from_init c B sh b ops sf outs :
   run NM (with_shape c (1 :: sh)) (init NM (with_shape c (1 :: sh))) (map (psop NM b) ops)
   = (psyn NM b sf, map (pres NM b) outs).
 Proof.
-  intros Hb Hc Hok Hrun Hnr. destruct (init_sample c B sh b Hb Hc) as [E Hbs].
+  intros Hb Hc Hok Hrun Hnr. destruct (synapse_init_sample c B sh b Hb Hc) as [E Hbs].
   rewrite run_with_shape, <- E.
   exact (proj1 (synapse_batch_independent NM B sh b Hb c ops _ sf outs Hbs Hok Hrun Hnr)).
 Qed.
